@@ -255,9 +255,11 @@ impl Mul<usize> for ZatBalance {
     type Output = Option<ZatBalance>;
 
     fn mul(self, rhs: usize) -> Option<ZatBalance> {
-        let rhs: i64 = rhs.try_into().ok()?;
-        self.0
-            .checked_mul(rhs)
+        // Widen so that a multiplier above `i64::MAX` does not fail when the exact
+        // product (e.g. of a zero balance) is still within the valid range.
+        let product = i128::from(self.0).checked_mul(i128::try_from(rhs).ok()?)?;
+        i64::try_from(product)
+            .ok()
             .and_then(|i| ZatBalance::try_from(i).ok())
     }
 }
